@@ -5,6 +5,7 @@ package c08
 import (
 	"encoding/json"
 	"fmt"
+	"io"
 	"reflect"
 	"strings"
 
@@ -184,11 +185,48 @@ type Case struct {
 	Pos1    int    `json:"pos1,omitempty"`
 	Pos2    int    `json:"pos2,omitempty"`
 	Prepop  bool   `json:"prepopulated,omitempty"`
+	Other   bool   `json:"prepopulated_unrelated,omitempty"` // the target holds only entries unrelated to the colliding names
+	Cut     int    `json:"cut,omitempty"`                    // 0: []byte input; k>0: a reader delivering the first k bytes, then the rest; -n: a reader delivering n bytes per Read
 	Doc     string `json:"doc,omitempty"`
+}
+
+// cutReader delivers data[:cut] first and then the rest (cut>0), or chunk bytes per Read (cut<0).
+type cutReader struct {
+	data []byte
+	pos  int
+	cut  int
+}
+
+func (c *cutReader) Read(p []byte) (int, error) {
+	if c.pos >= len(c.data) {
+		return 0, io.EOF
+	}
+	n := len(c.data) - c.pos
+	if c.cut > 0 && c.pos < c.cut {
+		n = c.cut - c.pos
+	} else if c.cut < 0 {
+		n = min(n, -c.cut)
+	}
+	n = min(n, len(p))
+	copy(p, c.data[c.pos:c.pos+n])
+	c.pos += n
+	return n, nil
+}
+
+// decodeVia decodes through Unmarshal (cut == 0) or UnmarshalRead over a cutReader.
+func decodeVia(doc []byte, cut int, out any, opts ...jsonv2.Options) error {
+	if cut == 0 {
+		return jsonv2.Unmarshal(doc, out, opts...)
+	}
+	return jsonv2.UnmarshalRead(&cutReader{data: doc, cut: cut}, out, opts...)
 }
 
 // checkDup decodes the document into the target under default options and under AllowDuplicateNames.
 func checkDup(t *target, p *pair, c *context, nfill, pos1, pos2 int, prepop bool) (doc string, msg string) {
+	return checkDupVia(t, p, c, nfill, pos1, pos2, prepop, false, 0)
+}
+
+func checkDupVia(t *target, p *pair, c *context, nfill, pos1, pos2 int, prepop, other bool, cut int) (doc string, msg string) {
 	defer func() {
 		if r := recover(); r != nil {
 			msg = fmt.Sprintf("library panic: %v", r)
@@ -202,23 +240,29 @@ func checkDup(t *target, p *pair, c *context, nfill, pos1, pos2 int, prepop bool
 			if prepop {
 				prepopulate(inner.Elem(), t, p)
 			}
+			if other {
+				prepopulateOther(inner.Elem(), t)
+			}
 			root.Elem().Set(inner)
 			return root
 		}
 		if prepop && c.name == "root" {
 			prepopulate(root.Elem(), t, p)
 		}
+		if other && c.name == "root" {
+			prepopulateOther(root.Elem(), t)
+		}
 		return root
 	}
 	wantErr := t.same(p)
 	root := mk()
-	err := jsonv2.Unmarshal([]byte(doc), root.Interface(), t.opts...)
+	err := decodeVia([]byte(doc), cut, root.Interface(), t.opts...)
 	if (err != nil) != wantErr {
 		return doc, fmt.Sprintf("default options: err=%v, but the two names %s / %s resolve to the same name, field or key = %v", err, p.n1, p.n2, wantErr)
 	}
 	root2 := mk()
 	opts := append([]jsonv2.Options{jsontext.AllowDuplicateNames(true)}, t.opts...)
-	err2 := jsonv2.Unmarshal([]byte(doc), root2.Interface(), opts...)
+	err2 := decodeVia([]byte(doc), cut, root2.Interface(), opts...)
 	if err2 != nil {
 		return doc, fmt.Sprintf("AllowDuplicateNames(true): unexpected error %v", err2)
 	}
@@ -234,6 +278,35 @@ func checkDup(t *target, p *pair, c *context, nfill, pos1, pos2 int, prepop bool
 		return doc, fmt.Sprintf("AllowDuplicateNames(true): colliding member holds %d, want the later value 2", got)
 	}
 	return doc, ""
+}
+
+// prepopulateOther fills the target with entries whose keys are unrelated to every name of the document.
+func prepopulateOther(v reflect.Value, t *target) {
+	switch v.Kind() {
+	case reflect.Map:
+		key := `"unrelated"`
+		switch {
+		case t.numericFillers:
+			key = `"99999"`
+		case t.textFillers:
+			key = `"99/99"`
+		}
+		tmp := reflect.New(v.Type())
+		if jsonv2.Unmarshal([]byte(`{`+key+`:7}`), tmp.Interface()) == nil {
+			v.Set(tmp.Elem())
+		}
+	case reflect.Interface:
+		v.Set(reflect.ValueOf(map[string]any{"unrelated": 7.0}))
+	case reflect.Struct:
+		for i := 0; i < v.NumField(); i++ {
+			if f := v.Field(i); f.Kind() == reflect.Map && f.CanSet() {
+				tmp := reflect.New(f.Type())
+				if jsonv2.Unmarshal([]byte(`{"unrelated":7}`), tmp.Interface()) == nil {
+					f.Set(tmp.Elem())
+				}
+			}
+		}
+	}
 }
 
 func prepopulate(v reflect.Value, t *target, p *pair) {
@@ -463,7 +536,7 @@ func replayCase(cs Case) string {
 			for pi := range ps {
 				for ci := range cx {
 					if ts[ti].name == cs.Target && ps[pi].name == cs.Pair && cx[ci].name == cs.Context {
-						_, m := checkDup(&ts[ti], &ps[pi], &cx[ci], cs.Fill, cs.Pos1, cs.Pos2, cs.Prepop)
+						_, m := checkDupVia(&ts[ti], &ps[pi], &cx[ci], cs.Fill, cs.Pos1, cs.Pos2, cs.Prepop, cs.Other, cs.Cut)
 						return m
 					}
 				}
@@ -471,6 +544,10 @@ func replayCase(cs Case) string {
 		}
 	case "marshal":
 		return checkMarshal(cs.Fill)
+	case "marshal-grid":
+		if cs.Fill < len(mgCarriers()) && cs.Pos1 < len(namePairs()) {
+			return checkMarshalGrid(cs.Fill, cs.Pos1, cs.Pos2)
+		}
 	}
 	return ""
 }
@@ -492,7 +569,7 @@ func Replay(r *evid.Run, raw json.RawMessage) {
 }
 
 func Run(r *evid.Run) {
-	r.Rule("unmarshal: 14 target shapes (struct exact / case:ignore / MatchCaseInsensitiveNames, maps with string / named string / int / float64 / TextMarshaler keys, any, map[string]any, embedded fallback map and raw value, raw value, struct skipping the member) x 10 name pairs (equal, differently escaped, case variants, '_'-variants, numerically equal integer and float keys, equal text keys, control) x 5 contexts (root, array element, member value, behind pointer at depth 3, behind interface) x filler counts {0,3,5,66,70} x every position pair of the two names (all pairs for small objects; first/last/around the 64-name switch for wide ones) x zero and pre-populated targets: default options reject iff the names resolve to the same name/field/key (resolver table written from the docs); AllowDuplicateNames accepts with the later member winning and changes nothing on duplicate-free input. Ill-formed UTF-8: 24 ill-formed byte patterns in names and values x targets x {default: error, AllowInvalidUTF8: one U+FFFD per byte}. Marshal: 14 colliding-name constructions: never a nil error with duplicate names. evaluations = Unmarshal/Marshal scenario pairs; distinct_nontrivial = distinct scenarios with a colliding pair or ill-formed bytes")
+	r.Rule("unmarshal: 14 target shapes (struct exact / case:ignore / MatchCaseInsensitiveNames, maps with string / named string / int / float64 / TextMarshaler keys, any, map[string]any, embedded fallback map and raw value, raw value, struct skipping the member) x 10 name pairs (equal, differently escaped, case variants, '_'-variants, numerically equal integer and float keys, equal text keys, control) x 5 contexts (root, array element, member value, behind pointer at depth 3, behind interface) x filler counts {0,3,5,66,70} x every position pair of the two names (all pairs for small objects; first/last/around the 64-name switch for wide ones) x zero targets, targets pre-populated with the colliding key and targets pre-populated with unrelated entries only x input as []byte and streamed (every two-chunk split of the small documents, 1/7/64-byte reads for all): default options reject iff the names resolve to the same name/field/key (resolver table written from the docs); AllowDuplicateNames accepts with the later member winning and changes nothing on duplicate-free input. Ill-formed UTF-8: 24 ill-formed byte patterns in names and values x targets x {default: error, AllowInvalidUTF8: one U+FFFD per byte}. Marshal: 14 colliding-name constructions: never a nil error with duplicate names. evaluations = Unmarshal/Marshal scenario pairs; distinct_nontrivial = distinct scenarios with a colliding pair or ill-formed bytes")
 	r.Assume("resolver table (which name pairs resolve to the same field/key per target shape) written from the documentation")
 	ts, ps, cx := targets(), pairs(), contexts()
 	type unit struct{ ti, pi, ci int }
@@ -538,19 +615,35 @@ func Run(r *evid.Run) {
 					}
 				}
 				for _, pp := range posPairs {
-					for _, prepop := range []bool{false, true} {
-						cur = Case{Part: "duplicate", Target: t.name, Pair: p.name, Context: c.name, Fill: nf, Pos1: pp[0], Pos2: pp[1], Prepop: prepop}
+					one := func(prepop, other bool, cut int) {
+						cur = Case{Part: "duplicate", Target: t.name, Pair: p.name, Context: c.name, Fill: nf, Pos1: pp[0], Pos2: pp[1], Prepop: prepop, Other: other, Cut: cut}
 						n++
 						if !p.control {
 							nt++
 						}
-						if doc, m := checkDup(t, p, c, nf, pp[0], pp[1], prepop); m != "" {
+						if doc, m := checkDupVia(t, p, c, nf, pp[0], pp[1], prepop, other, cut); m != "" {
 							cs := cur
 							cs.Doc = doc
 							if len(cs.Doc) > 300 {
 								cs.Doc = cs.Doc[:300] + "..."
 							}
-							r.Violation(fmt.Sprintf("c08|dup|%s|%s|%s|%d|%d|%d|%v", t.name, p.name, c.name, nf, pp[0], pp[1], prepop), m, cs, func() bool { return replayCase(cs) != "" })
+							r.Violation(fmt.Sprintf("c08|dup|%s|%s|%s|%d|%d|%d|%v|%v|%d", t.name, p.name, c.name, nf, pp[0], pp[1], prepop, other, cut), m, cs, func() bool { return replayCase(cs) != "" })
+						}
+					}
+					one(false, false, 0)
+					one(true, false, 0)
+					one(false, true, 0)
+					// streamed input: every two-chunk split of small documents; fixed chunk sizes for all
+					docLen := len(c.doc(payload(t, p, nf, pp[0], pp[1])))
+					if total <= 4 || (r.Tier == "thorough" && total <= 7) {
+						for cut := 1; cut < docLen; cut++ {
+							one(false, false, cut)
+						}
+					}
+					for _, chunk := range []int{-1, -7, -64} {
+						one(false, false, chunk)
+						if chunk == -7 {
+							one(false, true, chunk)
 						}
 					}
 				}
@@ -593,6 +686,7 @@ func Run(r *evid.Run) {
 	}
 	r.Evaluations.Add(n)
 	r.Nontrivial.Add(n)
+	marshalGrid(r)
 	r.Sample(Case{Part: "marshal", Doc: "map keys colliding after U+FFFD substitution"})
 	r.Bound("ill-formed UTF-8: %d byte patterns x 14 targets x name/value position, and x 7 Go value shapes on the marshal side; %d colliding-name marshal constructions", len(bads), len(marshalCases()))
 }
